@@ -171,7 +171,24 @@ def make_grammars(rng, n, tier):
     return gs
 
 
+CHUNK = int(__import__('os').environ.get('VERIF_CHUNK', '300'))
+
+
 def run_family(ck, n_grammars, n_inputs, with_reset=True):
+    """runs the family in chunks (one scratch module and one compiled driver per chunk); the corpus grammars are part of every chunk"""
+    out, done = [], 0
+    while done < n_grammars:
+        n = min(CHUNK, n_grammars - done)
+        part = _run_family(ck, n, n_inputs, with_reset)
+        off = len(out)
+        for r in part:
+            r["i"] += off
+        out += part
+        done += n
+    return out
+
+
+def _run_family(ck, n_grammars, n_inputs, with_reset=True):
     """returns list of per-grammar dicts and fills nothing in ck (callers decide what is a violation)"""
     rng = ck.rng
     gs = make_grammars(rng, n_grammars, ck.tier)
